@@ -14,6 +14,7 @@ MCObj == [ a    |-> V("A", <<"A">>, {"x", "y"}, "variant"),
            c    |-> V("C", <<"C">>, {"y"}, "variant"),
            ca   |-> V("A", <<"C", "A">>, {"y"}, "layered-product"),
            at   |-> V("AT", <<"A", "T">>, {"x"}, "variant"),         \* dashed top-level UID, childless
+           sab  |-> V("AB", <<"A", "B">>, {"x"}, "variant"),         \* dashed top-level UID equal to the UID of A's child B
            abx  |-> V("B", <<"AB">>, {"x"}, "addon"),                \* misaligned only by a missing dash
            abt  |-> V("BT", <<"A", "B", "T">>, {"x"}, "addon") ]     \* misaligned only by an extra dash        \* dashed top-level UID, childless
 \* second pool (thorough tier): two trees sharing child ids, three arches, all four types, a deeper chain
